@@ -834,9 +834,11 @@ func c14RunSis(out, tier, config string, seed uint64, only map[string]bool, smal
 		sets := []ps{{5, 1, 1, 3}, {7, 2, 2, 5}, {11, 3, 1, 4}, {-3, 3, 2, 9}, {13, 6, 2, 2 * 64 / (eb / 2)}, {1, 4, 1, 1}}
 		if tier == "thorough" {
 			sets = append(sets, ps{17, 6, 1, 150 / eb}, ps{19, 5, 2, 70}, ps{23, 7, 2, 40})
-			if pk.field == "koalabear" || pk.field == "babybear" {
-				sets = append(sets, ps{29, 9, 2, 300}) // degree 512, 16-bit limbs: the AVX-512 path (2 polynomials, the second partly filled)
-			}
+		}
+		if pk.field == "koalabear" || pk.field == "babybear" {
+			// degree 512, 16-bit limbs: the AVX-512 kernel (2 polynomials, the second partly filled); also in the quick tier, the
+			// destination holds other values before the call
+			sets = append(sets, ps{29, 9, 2, 300})
 		}
 		rng := newRng(seed*15485863 + uint64(len(pk.field))*17 + uint64(pk.field[1]))
 		var hs []Ev
